@@ -43,8 +43,17 @@ fn scenario(name: &'static str, consumers: Vec<COp>, event: Event, cancel_first:
     scenario_x(name, consumers, event, cancel_first, false)
 }
 
+/// With another client keeping the subscription's mailbox busy with requests that wake nobody (GetSubscription).
+fn scenario_busy(name: &'static str, consumers: Vec<COp>, event: Event) -> ScenFn {
+    scenario_y(name, consumers, event, true, false, true)
+}
+
 /// `push_cfg`: the subscription was created with a push endpoint (no push loop is running here: it is only pulled)
 fn scenario_x(name: &'static str, consumers: Vec<COp>, event: Event, cancel_first: bool, push_cfg: bool) -> ScenFn {
+    scenario_y(name, consumers, event, cancel_first, push_cfg, false)
+}
+
+fn scenario_y(name: &'static str, consumers: Vec<COp>, event: Event, cancel_first: bool, push_cfg: bool, busy: bool) -> ScenFn {
     scen!([consumers] |cx| {
         let a = cx.api.clone();
         must!(cx, "setup:create-topic", { let a = a.clone(); async move { a.create_topic(T0).await } });
@@ -76,6 +85,10 @@ fn scenario_x(name: &'static str, consumers: Vec<COp>, event: Event, cancel_firs
                 helds.push(held.clone());
             }
             Event::Expiry => {}
+        }
+        if busy {
+            progs.push(vec![COp::GetSub(S0), COp::GetSub(S0), COp::GetSub(S0)]);
+            helds.push(vec![]);
         }
         // which step boundary of the first consumer it is cancelled at (data choice; last value = never)
         let k = if cancel_first { cx.choose("cancel-after-polls", 6) } else { 5 };
@@ -160,6 +173,19 @@ pub fn units(thorough: bool) -> Vec<Unit> {
                     scenario("cancel", c.clone(), e, true),
                 ));
             }
+        }
+    }
+    // ... and with a client that keeps the (capacity-1) mailbox busy with requests that wake nobody: a consumer that
+    // has consumed the wake-up and disappears while its pull waits for room must not leave the others asleep
+    for (cn, c) in [("pull1+pull1", vec![PullBlock(S0, 1), PullBlock(S0, 1)]), ("stream+pull10", vec![Stream(S0, 10), PullBlock(S0, 10)])] {
+        for e in [Event::Publish1, Event::Nack] {
+            v.push(explore_unit(
+                format!("sched-cancel-busy/cap1/{}/{:?}", cn, e),
+                format!("consumers {:?}, event {:?}, a third client sends three GetSubscription requests; the first consumer is cancelled after k polls for every k (mailbox capacity 1)", c, e),
+                Bounds::new(if thorough { 3 } else { 2 }),
+                ExecCfg { caps: (1, 1), ..Default::default() },
+                scenario_busy("cancel-busy", c.clone(), e),
+            ));
         }
     }
     v
